@@ -93,7 +93,9 @@ def classify(text):
             k += 1  # optional leading '&' of a continuation line
             while quote is None and k < n and _ws(chars[k]):
                 k += 1
-            if k == n:
+            if k == n or (quote is None and chars[k] == "!"):
+                # F2018 6.3.2.4: no line shall contain a single '&' as the only non-blank character, or as the only
+                # non-blank character before a '!' that initiates a comment
                 res.ok = False
                 res.why = "'&' alone on a line"
                 return res
